@@ -4,6 +4,7 @@ use super::out::{Out, RunCfg};
 pub mod common;
 pub mod c01;
 pub mod c05;
+pub mod c12;
 pub mod c13;
 pub mod c14;
 pub mod c15;
@@ -13,6 +14,7 @@ pub fn dispatch(prop: &str, cfg: &RunCfg, out: &Out) {
     match prop {
         "C01" => c01::run(cfg, out),
         "C05" => c05::run(cfg, out),
+        "C12" => c12::run(cfg, out),
         "C13" => c13::run(cfg, out),
         "C14" => c14::run(cfg, out),
         "C15" => c15::run(cfg, out),
